@@ -179,7 +179,7 @@ func (w *World) BootConsumer(consumerID string, pr *Probes, tweak ConsumerGenesi
 	c.relayer = accts[0]
 	c.user = accts[1]
 	if w.Cfg.Record {
-		c.Rec = &ChainRecord{ChainID: chainID, Kind: "consumer", Init: mustMarshal(initReq), InitValidators: initRes.Validators}
+		c.Rec = &ChainRecord{ChainID: chainID, Kind: "consumer", Init: mustMarshal(initReq), InitValidators: initRes.Validators, InitDigest: sha(mustMarshal(initRes))}
 	}
 	w.Consumers[consumerID] = c
 	w.ConsOrder = append(w.ConsOrder, consumerID)
